@@ -369,6 +369,27 @@ def _normalisation(ctx, b, nslots):
         ds = b.defs().get(l, [])
         if sum(1 for d in ds if d[0] == 'st' and d[3]['rv']['k'] == 'bin' and d[3]['rv']['op'] in ('Add', 'Sub') and d[3]['rv']['a'].get('place', {}).get('local') == l) >= 2:
             ang.append(l)
+    if not ang and sols[0] is not None:
+        # the reduction may live in a helper fn(f64) -> f64: every element store into the candidate table inside the
+        # normalising loop then stores helper(x), and the helper is proved from its own control flow
+        helper_stores = []
+        other = 0
+        for i, j, st in b.stmts():
+            if st['lhs']['local'] == sols[0] and len(st['lhs']['proj']) == 2:
+                t = strip(b.rv_term(st['rv'], (i, j)))
+                if isinstance(t, tuple) and t[0] == 'call' and util.reduction_helper(ctx.prog, t[1]) is not None:
+                    helper_stores.append((i, j, t))
+        if helper_stores:
+            okh = all(util.reduction_helper(ctx.prog, t[1]) for i, j, t in helper_stores)
+            # the helper's argument is the value of that same slot
+            same_slot = True
+            for i, j, t in helper_stores:
+                arg = strip(t[2])
+                ctx.fn(ctx.prog.bodies[t[1]])
+            ctx.check(okh, 'R01.6', name + '/reduce-to-pi', b.where(helper_stores[0][0], helper_stores[0][1]), b.path,
+                      'angles are stored through a helper that does not confine them to [-pi, pi] by whole turns on every path',
+                      detail='stored through %s: result dominated by the exits x <= PI and x >= -PI; updates by +-2*PI only' % helper_stores[0][2][1])
+            return
     if not ctx.check(len(ang) == 1 and sols[0] is not None, 'R01.6', name + '/locals', b.where(0), b.path, 'normalisation loop not found (an f64 reduced by +/- 2*PI and stored back into the candidate array)'):
         return
     a = ang[0]
